@@ -39,7 +39,10 @@ def index_arrays(structs):
     out, off = [], 0
     for s in structs:
         n = int(numpy.prod(s["shape"], dtype=int))
-        out.append(numpy.arange(off + 1, off + n + 1).reshape(tuple(s["shape"])))
+        idx = numpy.arange(off + 1, off + n + 1).reshape(tuple(s["shape"]))
+        if s.get("as") == "poly_T":
+            idx = numpy.ascontiguousarray(idx.T).T      # same memory layout as the transposed view handed to numpoly
+        out.append(idx)
         off += n
     return out
 
@@ -61,8 +64,15 @@ def functions():
         n = int(numpy.prod(sh))
         targets = [t for t in [(n,), (1, n), (n, 1), (-1,), (2, -1), (-1, 2), (3, -1), (2, 2, -1)] if numpy.prod([x for x in t if x > 0]) and n % int(numpy.prod([x for x in t if x > 0])) == 0]
         t = gen.choice(r, targets)
-        how = gen.choice(r, ["function", "method"])
-        return [P(r, sh)], (lambda a: numpoly.reshape(a, t)) if how == "function" else (lambda a: a.reshape(t)), lambda i: numpy.reshape(i, t), {"to": t, "how": how}
+        how = gen.choice(r, ["function", "method", "numpy"])
+        order = gen.choice(r, ["C", "F", "A", "A"])
+        f = {"function": lambda a: numpoly.reshape(a, t, order=order), "method": lambda a: a.reshape(t, order=order),
+             "numpy": lambda a: numpy.reshape(a, t, order=order)}[how]
+        # index arrays get the memory layout of the operand (order="A" reads it): transposed views are F-contiguous
+        a = P(r, sh)
+        if len(sh) >= 2 and r.random() < .5:
+            a["as"] = "poly_T"       # a transposed (Fortran-contiguous) view: order="A" then reads in Fortran order
+        return [a], f, lambda i: numpy.reshape(i, t, order=order), {"to": t, "how": how, "order": order}
     one("reshape", reshape)
 
     def transpose(r):
@@ -84,7 +94,13 @@ def functions():
         return [P(r, sh)], lambda a: numpoly.expand_dims(a, ax), lambda i: numpy.expand_dims(i, ax), {"axis": ax}
     one("expand_dims", expand_dims)
     for nm in ("atleast_1d", "atleast_2d", "atleast_3d"):
-        one(nm, lambda r, nm=nm: (lambda sh: ([P(r, sh)], lambda a: getattr(numpoly, nm)(a), lambda i: getattr(numpy, nm)(i), {}))(shapes(r)))
+        def atleast(r, nm=nm):
+            # one or several arguments (each keeps its own indeterminates and shape), either spelling
+            k = int(gen.choice(r, [1, 1, 2, 3]))
+            ops = [P(r, shapes(r), names=gen.gen_names(r, 1, 2)) for _ in range(k)]
+            M = numpy if r.random() < .3 else numpoly
+            return ops, lambda *a: getattr(M, nm)(*a), lambda *i: getattr(numpy, nm)(*i), {"arguments": k, "how": M.__name__}
+        one(nm, atleast)
 
     def repeat(r):
         sh = shapes(r)
@@ -265,7 +281,9 @@ def run_one(ctx, name, mk, rng, idx, monitor, pending):
     dtype_in = str(numpy.result_type(*[numpy.dtype(s["dtype"]) for s in structs]))
     for k, (g, e) in enumerate(zip(got, expect)):
         e = numpy.asarray(e)
-        dt = structs[k]["dtype"] if name == "broadcast_arrays" else dtype_in
+        # functions returning one output per argument keep each argument's own dtype (and names)
+        per_argument = name == "broadcast_arrays" or (name.startswith("atleast_") and len(structs) > 1)
+        dt = structs[k]["dtype"] if per_argument else dtype_in
         pending.append((case, tags, k, g, e, structs, names_in, dt, info))
 
 
@@ -291,8 +309,9 @@ def settle(ctx, pending):
             ctx.fail(case, f"{name}{info}: output {k} has shape {s['shape']}, numpy produces {list(e.shape)}", tags + ["shape"])
         elif den_of_struct(s) != dm:
             ctx.fail(case, f"{name}{info}: output {k} is {den_key(den_of_struct(s))[:200]}; numpy places the elements as {den_key(dm)[:200]}", tags + ["value"])
-        elif not set(n for m in dm for n, _ in m) <= set(s["names"]) or (len(structs) == 1 and s["names"] != structs[0]["names"]):
-            ctx.fail(case, f"{name}: names {s['names']} are not the operand's {structs[0]['names']}", tags + ["names"])
+        elif not set(n for m in dm for n, _ in m) <= set(s["names"]) or (len(structs) == 1 and s["names"] != structs[0]["names"]) \
+                or (name.startswith("atleast_") and len(structs) > 1 and s["names"] != structs[k]["names"]):
+            ctx.fail(case, f"{name}: names {s['names']} of output {k} are not the operand's {structs[k if len(structs) > 1 else 0]['names']}", tags + ["names"])
         elif s["dtype"] != dtype_in:
             ctx.fail(case, f"{name}: dtype {s['dtype']} != {dtype_in}", tags + ["dtype"])
     del pending[:]
